@@ -452,11 +452,19 @@ class AsyncPettingZooVecEnv(PettingZooVecEnv):
         else:
             for pipe in self.parent_pipes:
                 if (pipe is not None) and (not pipe.closed):
-                    pipe.send(("close", None))
+                    try:
+                        pipe.send(("close", None))
+                    except OSError:
+                        # The worker has already exited (e.g. after raising in a call
+                        # whose result was never collected): nothing left to shut down
+                        pipe.close()
 
             for pipe in self.parent_pipes:
                 if (pipe is not None) and (not pipe.closed):
-                    pipe.recv()
+                    try:
+                        pipe.recv()
+                    except (EOFError, OSError):
+                        pass
 
         for pipe in self.parent_pipes:
             if pipe is not None:
